@@ -40,7 +40,9 @@ def ending_steps(draw, spec, ending, removed=()):
     if ending in ("close", "close2", "reopen"):
         steps += [{"dt": 1000, "k": "suspend", "bump": True}, {"dt": 1000, "k": "close", "results": res1}]
     if ending == "close2":
-        steps.append({"dt": draw(st.sampled_from([0, 1000])), "k": "close", "results": res1})
+        # the closing update repeated, or an amended result (re-settlement) sent while the market is still closed
+        res2 = res1 if draw(st.booleans()) else gen.results(draw, spec, removed)
+        steps.append({"dt": draw(st.sampled_from([0, 1000])) if res2 == res1 else 1000, "k": "close", "results": res2})
     if ending in ("reopen", "first-closed-reopen"):
         steps.append({"dt": 1000, "k": "reopen"})
         steps.append({"dt": 1000, "k": "book", "rc": [{"r": 0, "atb": [[20, 5.0]], "atl": [[24, 5.0]]}]})
